@@ -129,6 +129,17 @@ def run(R):
     R.require_min("C18.ATTRDEF", 60)
     diag_purity(R, ro, allm, "C18.TOTAL")
     R.require_min("C18.TOTAL", 20)
+    diag_robust(R, allm, "C18.TOTAL")
+    # format_asynq_stack() reads the scheduler's active task and walks the creator links: both must be what the property says
+    from .c08 import active_own
+    active_own(R, ro, "C18.STACK.ACTIVE-OWN")
+    common.active_task_pair(R, ro, "C18.STACK.ACTIVE-PAIR")
+    for f in repo.all_functions():
+        for recv, attr, node in q.attr_stores(f.node):
+            if attr == "creator" and recv is not None:
+                R.check(f.qualname == "async_task.AsyncTask.__init__", "C18.CHAIN", "%s:creator-store" % f.qualname, R.site(f, node),
+                        "a task's creator link is written once, at creation",
+                        "%s overwrites a task's creator link: the asynq stack of a task that outlives (or is run after) that point stops there and omits the outer levels" % f.qualname)
     # self-reference guard in FutureBase.__repr__
     fr = ro.FutureBase.methods.get("__repr__")
     R.need(fr is not None, "anchor vanished: FutureBase.__repr__")
@@ -177,6 +188,14 @@ def run(R):
     ths = [c for n, c in ro.step_sites(step) if q.attr_call(c)[1] == "throw"]
     okt = any([q.src(a) for a in c.args][1:] == ["error", "error._traceback"] or "error._traceback" in [q.src(a) for a in c.args] for c in ths)
     R.check(okt, "C18.GLUE", step.qualname + ":throw", R.site(step), "a stamped error is thrown into the parent with its stored traceback", "the stored traceback is no longer passed to throw()")
+    # an error that no task has stamped yet keeps the traceback it already carries
+    for c in ths:
+        args = [q.src(a) for a in c.args]
+        okk = len(c.args) == 1 or len(c.args) == 3
+        R.check(okk, "C18.GLUE", step.qualname + ":throw-keeps-tb:" + q.stmt_key(c)[:40], R.site(step, c),
+                "throw() is called with the exception alone or with an explicit traceback",
+                "throw(%s) replaces the exception's traceback with nothing: the frames of whatever raised it (a batch flush, a value provider) are lost and the "
+                "traceback ends at the yield" % ", ".join(args))
     # creator chain
     tb = ro.AsyncTask.methods.get("traceback")
     R.need(tb is not None, "anchor vanished: AsyncTask.traceback")
@@ -425,3 +444,70 @@ def filter_rules(R):
     pats = [n for n in q.scope_nodes(ft.node) if isinstance(n, ast.Assign) and isinstance(n.value, ast.Tuple) and len(n.value.elts) == 2 and isinstance(n.value.elts[0], ast.List)]
     R.check(len(pats) >= 3 and all(p_.value.elts[0].elts for p_ in pats), "C18.FILTER", ft.qualname + ":patterns", R.site(ft), "every boilerplate pattern is non-empty (%d patterns)" % len(pats),
             "a boilerplate pattern is empty (it would match everywhere)")
+
+
+NULLABLE = ("gi_frame", "_generator", "_frame", "creator", "last_task", "tb_next", "f_back", "__traceback__", "cr_frame")
+
+
+def diag_robust(R, allm, rule):
+    """Diagnostic methods do not dereference attributes that are legitimately None in some lifecycle
+    state, and do not use an arbitrary value as the right operand of % (a tuple would be unpacked)."""
+    n = 0
+    for m in sorted(allm.values(), key=lambda f: f.qualname):
+        if m.cls is None:
+            continue
+        cfg = cfg_of(m)
+        # (1) X.<nullable>.<attr> only behind `X.<nullable> is not None`
+        for node in q.scope_nodes(m.node):
+            if isinstance(node, ast.Attribute) and isinstance(node.value, ast.Attribute) and node.value.attr in NULLABLE and isinstance(node.ctx, ast.Load):
+                base = q.src(node.value)
+                st = q.enclosing_stmt(node)
+                nodes = [x for x in cfg.nodes if x.stmt is st and any(node is y for e in kit.node_exprs(x) for y in ast.walk(e))]
+
+                def notnone(nd, base=base):
+                    if nd.kind != "test":
+                        return None
+                    k, s_, pos = q.atom_test(nd.ast)
+                    if k == "isnone" and s_ == base:
+                        return "F" if pos else "T"
+                    if k == "truth" and s_ == base:
+                        return "T" if pos else "F"
+                    return None
+                ok = bool(nodes) and kit.path_avoiding_guard(cfg, nodes, notnone, N) is None
+                # expression-level guard: `A if base is not None else B`, `base is not None and base.x`
+                if not ok:
+                    cur = node
+                    for a in q.ancestors(node):
+                        if isinstance(a, ast.IfExp) and any(cur is y for y in ast.walk(a.body)):
+                            k, s_, pos = q.atom_test(a.test)
+                            ok = ok or (k == "isnone" and s_ == base and not pos) or (k == "truth" and s_ == base and pos)
+                        if isinstance(a, ast.BoolOp) and isinstance(a.op, ast.And):
+                            for v in a.values:
+                                if any(cur is y for y in ast.walk(v)):
+                                    break
+                                k, s_, pos = q.atom_test(v)
+                                ok = ok or (k == "isnone" and s_ == base and not pos) or (k == "truth" and s_ == base and pos)
+                        if isinstance(a, ast.stmt):
+                            break
+                        cur = a
+                n += 1
+                R.check(ok, rule, "%s:%s" % (m.qualname, q.src(node)), R.site(m, node),
+                        "%s is read only when %s is not None" % (q.src(node), base),
+                        "%s.%s reads %s although %s is None in some lifecycle states (an exhausted generator has no frame, a top-level task no creator, ...): "
+                        "printing the object then raises AttributeError" % (m.cls.name, m.name, q.src(node), base))
+        # (2) "fmt" % <bare value>
+        for node in q.scope_nodes(m.node):
+            if isinstance(node, ast.BinOp) and isinstance(node.op, ast.Mod) and isinstance(node.left, ast.Constant) and isinstance(node.left.value, str):
+                r = node.right
+                if isinstance(r, (ast.Tuple, ast.Dict, ast.Call, ast.Constant, ast.BinOp, ast.JoinedStr)):
+                    continue
+                safe = False
+                if isinstance(r, ast.Name):
+                    vals = common.assigned_values(m.node, r.id)
+                    safe = bool(vals) and all(k == "expr" and isinstance(v, (ast.Call, ast.Constant, ast.BinOp, ast.JoinedStr)) for k, v in vals)
+                n += 1
+                R.check(safe, rule, "%s:%%:%s" % (m.qualname, q.src(r)), R.site(m, node),
+                        "the right operand of %% is a tuple or an already formatted string",
+                        "%s.%s formats `%s %% %s` with a bare value: when that value is a tuple it is unpacked as the argument list (TypeError for 0 or 2+ elements, "
+                        "wrong text for 1)" % (m.cls.name, m.name, q.src(node.left)[:30], q.src(r)))
+    return n
